@@ -520,7 +520,7 @@ def snapshot(h):
 
 def c17(tier, seed):
     ex = Explorer('C17', tier, seed)
-    n = budget(tier, 40)
+    n = budget(tier, 120)
     for k in range(n):
         D = respell(ex.rng, std_dataset(ex.rng, maxleaves=ex.rng.choice([3, 4, 5, 6, 8])))
         cid = 'C17-%d' % k
@@ -537,7 +537,7 @@ def c17(tier, seed):
         ops = []
         nops = ex.rng.randint(5, 40 if tier == 'thorough' else 25)
         for _ in range(nops):
-            kind = ex.rng.choice(['v', 'v', 'l', 'tp', 'tph', 'iham', 'clust', 'lookup', 'nav', 'atlevel', 'repeat'])
+            kind = ex.rng.choice(['v', 'v', 'l', 'tp', 'tph', 'tph', 'tph', 'iham', 'iham', 'clust', 'lookup', 'nav', 'atlevel', 'repeat'])
             if kind == 'repeat' and ops:
                 ops.append(ex.rng.choice(ops)[:]); ops[-1][0] = ex.rng.randint(0, 1); continue
             w = ex.rng.randint(0, 1)
